@@ -18,8 +18,8 @@ import (
 // ---------- stub documents ----------
 
 type vpLoc struct {
-	field            string
-	pos, start, end  int
+	field           string
+	pos, start, end int
 }
 
 func (l *vpLoc) Field() string { return l.field }
